@@ -20,7 +20,9 @@ import stixgen
 import tr_tables
 
 MANIFEST = {
-    "text": "PROVED (Coq, closed under the global context): (1) spec_refines_lib_modulo_failures -- the decidable table "
+    "text": "PROVED (Coq, closed under the global context; Props/C03.v, 8 theorems), all at the level of ONE class "
+            "constructor called with an explicit class id -- parse dispatch, bundles and observed-data containers are "
+            "oracle / correspondence only: (1) spec_refines_lib_modulo_failures -- the decidable table "
             "condition 'every value rule / required set / co-constraint of the class tables regenerated from /repo is no "
             "stricter than the frozen specification's', kernel-evaluated on every run, failures named slot by slot; (2) "
             "clean_complete_partial / clean_complete_partial_wide -- for arbitrary tables and every JSON value: a value the "
@@ -28,23 +30,38 @@ MANIFEST = {
             "back to the same value (timestamps as instants, floats by value), for the kinds named by kind_complete / "
             "kind_complete2 (string-like, fixed, integer, boolean, enumeration, hexadecimal, dictionary, identifier, reference, "
             "selector, timestamp, float, lists of those) and representable values (jin_ok: at most six fraction digits, "
-            "|integer given for a float| < 10^16); (3) spec_complete_partial -- for arbitrary tables with spec_refines sp w: "
-            "the members of a spec-valid object (any validator fuel, distinct keys) are accepted by the strict constructor, "
-            "every given property is stored with the same value, anything else stored is a defaulted property; coverage "
-            "predicates class_complete (100 of 123 generated classes; kernel-computed lib_complete in the evidence; outside: "
-            "Relationship / Sighting / StatementMarking (positional __init__), Indicator, MarkingDefinition, 2.0 observables "
-            "with object references, 2.1 ExternalReference, SocketExt, Process) and input_complete (no nested object, "
-            "`extensions` or `granular_markings` member given). CORRESPONDENCE / ORACLE ONLY (not proved): parse dispatch, "
-            "bundles and observed-data containers, nested objects, granular markings, the uncovered classes.",
+            "|integer given for a float| < 10^16); (3) spec_complete_partial / spec_complete_partial_defaults (+ the "
+            "_generated_tables instances) -- for arbitrary tables with spec_refines sp w and a variant with year padding, "
+            "upper-case selector segments and the repaired positional __init__ (variant_complete: vr_year_pad, vr_sel_upper, "
+            "vr_positional_none): the members of a spec-valid object (any validator fuel, distinct keys) are accepted by the "
+            "strict constructor, every given property is stored with the same value (jsame), and every OTHER stored property "
+            "is a property with a default holding exactly that default (default_entry: the fixed value / the constructor's "
+            "clock reading cleaned for the property's precision / prefix + uuid4 / the constant; for the id of a 2.1 observable "
+            "the deterministic type--uuid5) -- the older spec_complete_partial only says 'the slot has some default'. "
+            "COVERAGE, both explicit boolean predicates: class_complete = 120 of 123 generated classes (kernel-computed "
+            "lib_complete in the evidence; outside: 2.1 Indicator, both MarkingDefinition classes); input_complete = EVERY "
+            "given member is of a kind in kind_complete2 (above) -- so an input that gives `hashes` (KHashes), `payload_bin` "
+            "(KBinary), `external_references`, `kill_chain_phases`, any other embedded object or list of objects (KEmbedded / "
+            "KListOf), an observable container, bundle members, a marking `definition`, `extensions` or `granular_markings`, "
+            "or (for a directly constructed 2.0 observable) an object reference, is OUTSIDE the theorem: most real SDOs that "
+            "carry external_references or kill_chain_phases are outside; a typical covered input is an SDO / SRO / SCO given "
+            "by its scalar, timestamp, reference, vocabulary, string-list and dictionary properties. Example "
+            "hypotheses_satisfiable_ipv4 evaluates every hypothesis on a concrete input. CORRESPONDENCE / ORACLE ONLY (not "
+            "proved): parse dispatch, bundles and observed-data containers, nested objects of every kind, hashes, binary, "
+            "extensions, granular markings, the three uncovered classes.",
     "design_ref": "DESIGN.md 6/C03, Appendix A.7; design_notes/C02-C03.md",
-    "note": "Trusted: Coq kernel + vm_compute, tr_tables, the frozen specification tables /verif/spec and Spec/StixValid.v "
-            "(valid_obj_x -- valid_obj plus strict base64 for binary properties and no null / empty list inside dictionary "
-            "values -- selects the spec-valid generated candidates; the theorems are stated with valid_obj / valid_kind, which "
-            "admit MORE inputs, so they stay true; created <= modified is a co-constraint of the frozen tables and thus part "
-            "of both), the preservation comparison of this file (JSON "
-            "equality; timestamps as exact rational instants; additions only default-valued optionals), the Python check "
-            "that 2.0 object references are well typed. Oracle: ~1450 presentations per quick run (alone / bundle / "
-            "observed-data container / two-call sequences in one process).",
+    "note": "Trusted: Coq kernel + vm_compute, tr_tables, the frozen specification tables /verif/spec (seeded from the "
+            "pinned library's own tables, audited overrides on top) and Spec/StixValid.v "
+            "(valid_obj_x -- valid_obj plus strict base64 for binary properties, no null / empty list inside dictionary "
+            "values, definition matching definition_type, STIX 2.0 object references naming a member of their container of "
+            "an allowed type -- selects the spec-valid generated candidates; the theorems are stated with valid_obj / "
+            "valid_kind, which admit MORE inputs, so they stay true; created <= modified is a co-constraint of the frozen "
+            "tables and thus part of both), the preservation comparison of this file (JSON "
+            "equality; timestamps as exact rational instants; additions only default-valued optionals, pattern_version "
+            "only for STIX patterns), the Python check "
+            "that 2.0 object references are well typed. Oracle: ~1400 presentations per quick run (alone / bundle / "
+            "observed-data container / call sequences in one process / JSON text and file-object argument forms); the "
+            "implementation worker runs under a local time zone 14 h from UTC.",
     "technique": "Coq proof over the shared interpreter model + kernel-evaluated table refinement; oracle on the real "
                  "parse/serialize round trip of generated spec-valid objects; model correspondence on the same calls",
 }
@@ -345,6 +362,10 @@ def gen_candidates(run, g, per_class):
         x = long_list_marking(g, cid, base, rng)
         if x:
             cands.append((cid, x, "long-list-marking"))
+        # legal shapes at unusual sizes: lists of 1..256 elements, strings of length 0 / 1 / 255 / 256, dictionary keys of
+        # a bound length, dictionary values nested up to 64 deep
+        for lab, _slot, x in stixgen.size_variations(g, cid, base)[:1]:
+            cands.append((cid, x, "size"))
         if cid == "2.1/Indicator":
             # pattern languages other than STIX: no pattern validator, no pattern_version default
             for pt, pat in (("snort", 'alert tcp any any -> any any (msg:"x"; sid:1;)'), ("yara", "rule r { condition: true }"),
@@ -661,9 +682,19 @@ def check(run):
                 owner.append((len(valid) - 1, "sequence", []))
             else:
                 owner.append(None)       # runs (it sets the state) but is not a specification-valid object
+    # the same parse calls through the other public argument forms (JSON text, text file object, bytes file object)
+    more, more_owner = [], []
+    for c, ow in zip(cases, owner):
+        if c["op"] == "parse" and c.get("seq") is None and ow is not None and run.rng.random() < 0.12:
+            d = dict(c)
+            d["form"] = run.rng.choice(["text", "file", "bytes-file"])
+            more.append(d)
+            more_owner.append(ow)
+    cases += more
+    owner += more_owner
     impl, extra = sc.run_impl_cases(cases)
     for c, r in zip(cases, impl):
-        run.count({k: c[k] for k in ("op", "cid", "data")}, nontrivial=True)
+        run.count({k: c[k] for k in ("op", "cid", "data", "form") if k in c}, nontrivial=True)
     for i in (0, len(cases) // 2):
         if cases:
             run.sample({"case": {k: cases[i][k] for k in ("op", "cid")}, "context": cases[i]["meta"]["ckind"],
@@ -700,7 +731,7 @@ def check(run):
         if f:
             explained.add(tuple(f))
         fid, _ = classify(loss, cid, dig(c["data"], path), how)
-        rep = {"case": {k: c[k] for k in ("op", "cid", "data", "allow", "interop")}, "context": ctx, "path": path,
+        rep = {"case": {k: c[k] for k in ("op", "cid", "data", "allow", "interop", "form") if k in c}, "context": ctx, "path": path,
                "class": cid, "object": dig(c["data"], path), "loss": loss, "origin": how}
         if c.get("seq") is not None:
             sq = [x for x in cases if x.get("seq") == c["seq"]]
